@@ -1,4 +1,5 @@
 import BumpVerif.Proofs.Mem
+import BumpVerif.Proofs.Contents
 import BumpVerif.Props.C11
 /-! # C02 — allocation contents are initialised as specified and stay intact
 
@@ -66,6 +67,31 @@ theorem try_fill_calls (n e : Nat) (he : e < n) : (C11.fillLoop (some e) n 0 [])
 
 example : (C11.fillLoop (some 2) 5 0 []).1 = [0, 1, 2] := by decide
 
+/-- **All histories, all operations.** From any state satisfying the live-block invariant, along any
+admissible history (allocations of every flavour, initialisers that allocate and fail, failed slice
+fills, `Allocator` calls, resets, limit changes), a block that stays in the live set and is not
+itself handed to `grow`/`shrink` keeps every byte: the arena's own writes (the copies in
+`grow`/`shrink`, the zero fill of `grow_zeroed`) never land in it.  (The caller's writes go through
+the exclusive reference to one block, which C01 keeps disjoint from all others.) -/
+theorem history_contents {E} (hE : EnvOK E) (ops : List Op) (y : Sys) (inv : LiveInv E y) (hrun : RunOKFull E ops y)
+    (m : Mem) (b : Block) (hu : Untouched E b ops y) (x : Nat) (hx : b.ptr ≤ x ∧ x < b.ptr + b.size) :
+    applyEffs m (sysRun E ops y).1.st.mem x = applyEffs m y.st.mem x :=
+  Bump.history_contents hE ops y inv hrun m b hu x hx
+
+/-- one step: only the block handed to `grow`/`shrink` can change -/
+theorem step_contents {E} (hE : EnvOK E) (y : Sys) (op : Op) (inv : LiveInv E y) (hv : OpValidFull y op)
+    (hne : (sysStep E op y).2 ≠ .envBad) (m : Mem) (b : Block) (hb : b ∈ y.live) (hnt : target op ≠ some b)
+    (x : Nat) (hx : b.ptr ≤ x ∧ x < b.ptr + b.size) :
+    applyEffs m (sysStep E op y).1.st.mem x = applyEffs m y.st.mem x :=
+  sysStep_contents hE y op inv hv hne m b hb hnt x hx
+
+/-- non-vacuity: a history that grows one block (moving it) while another stays put -/
+example :
+    let y0 : Sys := ⟨{ a := ⟨1, [⟨4096, 560, 16, 4500, 512⟩], none⟩, ans := [] }, [⟨4500, 20⟩, ⟨4520, 30⟩]⟩
+    let r := sysRun 160 [.agrow 4500 20 1 40 1 true] y0
+    r.2 = [.ptr 4480] ∧ r.1.live = [⟨4520, 30⟩, ⟨4480, 40⟩] ∧
+    r.1.st.mem = [.copy 4500 4480 20, .zero 4500 20] := by decide
+
 end Bump.C02
 
 #print axioms Bump.C02.alloc_writes_nothing
@@ -76,3 +102,5 @@ end Bump.C02
 #print axioms Bump.C02.shrink_keeps_prefix
 #print axioms Bump.C02.fill_calls_in_order
 #print axioms Bump.C02.try_fill_calls
+#print axioms Bump.C02.history_contents
+#print axioms Bump.C02.step_contents
